@@ -5,6 +5,10 @@ BIN=$1; PATCH=$2; shift 2
 cd /tmp/mut/repo && git checkout -q -- . && git apply "$PATCH" || { echo "patch does not apply"; exit 3; }
 cd /tmp/mut/harness && rsync -a --exclude target --exclude Cargo.toml --exclude .cargo /verif/harness/ /tmp/mut/harness/ 
 cargo build --bin $BIN 2>&1 | grep -E "^error" -A6 | head -20
+case "$BIN" in c10|c11|c19|c20)
+  ( cd /verif && cargo +1.92 build --manifest-path /tmp/mut/repo/Cargo.toml -p warcraft-rs -p storm-ffi --target-dir /verif/target/mut-repo --offline 2>&1 | grep -E "^error" -A6 | head -10 )
+  export VERIF_CLI=/verif/target/mut-repo/debug/warcraft-rs VERIF_LIBSTORM=/verif/target/mut-repo/debug/libstorm.so ;;
+esac
 mkdir -p /tmp/mut/out
 cd /verif && VERIF_ROOT=/tmp/mut/out VERIF_LIBSTORM=${VERIF_LIBSTORM:-/verif/target/repo/debug/libstorm.so} timeout 1800 /verif/target/mut/debug/$BIN "$@" > /tmp/mut/last.out 2>&1
 echo "exit=$?"
